@@ -56,6 +56,10 @@ for _z in ZONES:
         _AW[(_z, _w, 0)] = _w.replace(tzinfo=_ZI[_z])
         _AW[(_z, _w, 1)] = _PZ[_z].localize(_w)
         _AW[(_z, _w, 2)] = _w.replace(tzinfo=_DU[_z])
+        try:
+            _AW[(_z, _w, 3)] = _PZ[_z].localize(_w, is_dst=True)      # first occurrence of an ambiguous hour
+        except Exception:
+            _AW[(_z, _w, 3)] = _AW[(_z, _w, 1)]
         for _s in (0, 1, 2):
             _AW2[(_z, _w, _s)] = _AW[(_z, _w, _s)] + timedelta(days=400)
 _UTCV = {}
@@ -183,6 +187,7 @@ for _z in ZONES:
     for _w in WALLS:
         _EXPECT_UTC[(_z, _w, 0)] = _AW[(_z, _w, 0)].astimezone(UTC).strftime("%Y%m%dT%H%M%SZ")
         _EXPECT_UTC[(_z, _w, 1)] = _AW[(_z, _w, 1)].astimezone(pytz.utc).strftime("%Y%m%dT%H%M%SZ")
+        _EXPECT_UTC[(_z, _w, 2)] = _AW[(_z, _w, 3)].astimezone(pytz.utc).strftime("%Y%m%dT%H%M%SZ")
 
 
 def h_utc_property(p: int, route: int, z: int, w: int, source: int, pytz_provider: bool) -> bool:
@@ -191,7 +196,7 @@ def h_utc_property(p: int, route: int, z: int, w: int, source: int, pytz_provide
     zoned or a floating date-time: the same instant in UTC with the Z suffix, no TZID; a floating
     value is taken as UTC.
 
-    pre: 0 <= p <= 3 and 0 <= route <= 1 and 0 <= z <= len(ZONES) and 0 <= w < len(WALLS) and 0 <= source <= 1
+    pre: 0 <= p <= 3 and 0 <= route <= 1 and 0 <= z <= len(ZONES) and 0 <= w < len(WALLS) and 0 <= source <= 2
     pre: pinned("pytz_provider", pytz_provider) and pinned("p", p)
     post: _
     """
@@ -206,8 +211,8 @@ def h_utc_property(p: int, route: int, z: int, w: int, source: int, pytz_provide
             dt = wall                                     # floating: taken as UTC
             expect = wall.strftime("%Y%m%dT%H%M%SZ")
         else:
-            src = _c(source, 0, 1)
-            dt = _aware(ZONES[zi], wall, src)
+            src = _c(source, 0, 2)
+            dt = _aware(ZONES[zi], wall, 3 if src == 2 else src)     # 2: pytz value localized with is_dst=True
             expect = _EXPECT_UTC[(ZONES[zi], wall, src)]
         comp = Alarm() if name == "ACKNOWLEDGED" else Event()
         if (_c(route, 0, 1) == 0 and name != "ACKNOWLEDGED") or name == "CREATED":
